@@ -3,7 +3,7 @@ TITLE = 'Attributions do not depend on batch size, co-batched examples or call o
 CONTRACT_MODULES = ['contracts.dls_c']
 FUNCTIONS = ['tangermeme.deep_lift_shap.deep_lift_shap']
 BOUNDED = 'bounded.C06'
-BOUNDED_BUDGET = {'quick': 60, 'thorough': 600}
+BOUNDED_BUDGET = {'quick': 120, 'thorough': 600}
 LEVEL = 'other'
 EXPLANATION = "deductive: deep_lift_shap under contract as a whole function, for every batch size, number of examples, number of references: pairs are processed in order e*ns+j; pair p is evaluated with X[p//ns], its own reference (references[p//ns, p%ns] or references(X[p//ns], random_state + p%ns)) and its own args row; result[e] combines exactly the ns pairs of example e (mean of projected multipliers, masked by X[e] unless hypothetical; raw multipliers with raw_outputs); returned references[e, j] = shuffle j of example e. The result term mentions neither batch_size nor any other example (loop invariants over abstract lists Xi, rj, attr_, attributions, references_; emission while-loop invariant). NOT under contract: what the model/hooks compute per pair (assumed row-wise function DLGRAD), dinucleotide_shuffle's own determinism (C02). bounded: bit-wise / 1e-10 comparison across every batch size, ordered subsets, repeated calls"
 ASSUMPTIONS = ['torch.autograd.grad of the batch-summed target column with the DeepLIFT hooks registered is, per example row, a function of that row, its paired reference row (row + h), their extra arguments and the target (row-wise model; this is what _nonlinear/_maxpool rely on through chunk(2))', 'model is row-wise (no cross-example interaction such as BatchNorm in training mode); eval() assumed', 'model.apply(_clear_hooks) does not raise; handle.remove() restores the hook dictionaries', 'floats treated as reals; divmod_unique (Lean) instances for pair index e*ns+j']
